@@ -180,8 +180,15 @@ def run(ctx):
         cases = []
         if c1 != c2:
             cases.append((a, b))
-        cases.append((a, b'ZZ9Q'))
-        cases.append((b'ZZ9Q', b))
+        unk = rng.choice([b'ZZ9Q', b'QQQQ', b'    ', b'', b'feet', a[:2] + b'zz', a.lower() if a.lower() != a else b'Zq'])
+        unk2 = rng.choice([b'ZZ9Q', b'XXXX', b'W   '])
+        known = {u for _c, u in allu}
+        if unk in known or unk2 in known:
+            continue
+        cases.append((a, unk))
+        cases.append((unk, b))
+        cases.append((unk, unk))            # an unknown unit converted to itself is still an unknown unit
+        cases.append((unk, unk2))
         for x, y in cases:
             try:
                 r = LU.convert(1.5, x, y)
